@@ -37,7 +37,14 @@ def big_statement(rng, table: str, arity: int, mode: str, k: int):
     if table == "prefix":
         pre = [f"http://ns{i}.example/" for i in range(k)]
         iris = [("iri", p + "x") for p in pre]
-        terms = [iris[i % k] for i in range(arity)]
+        if rng.random() < .6:
+            # entries repeat INSIDE the statement (A B A C ...): an earlier entry is touched again before a new one arrives
+            seq = list(range(k))
+            while len(seq) < max(arity, k):
+                pos = rng.randint(1, len(seq))
+                seq.insert(pos, rng.choice(seq[:pos]))
+            iris = [iris[j] for j in seq]
+        terms = [iris[i % len(iris)] for i in range(arity)]
         extra = iris[arity:]
         if extra and mode == "generic":        # more prefixes than slots: carry the rest in a quoted triple
             while len(extra) < 2:
@@ -46,7 +53,12 @@ def big_statement(rng, table: str, arity: int, mode: str, k: int):
         return tuple(terms)
     if table == "datatype":
         dts = [f"http://ex.org/dt/{i}" for i in range(k)]
-        terms = [("lit", f"v{i}", None, dts[i % k]) for i in range(arity)]
+        seq = list(range(k))
+        if rng.random() < .6:
+            while len(seq) < arity:
+                pos = rng.randint(1, len(seq))
+                seq.insert(pos, rng.choice(seq[:pos]))
+        terms = [("lit", f"v{i}", None, dts[seq[i % len(seq)]]) for i in range(arity)]
         if k > arity:
             terms[0] = ("triple", ("lit", "a", None, dts[0]), ("iri", "http://ex.org/p"), ("lit", "b", None, dts[k - 1]))
         return tuple(terms)
